@@ -523,3 +523,42 @@ Proof.
          (TNamed 11), (TNonNull (TNamed 10)).
   repeat split; try reflexivity. discriminate.
 Qed.
+
+(* ---- "All Variable Uses Defined" is per operation, through fragment spreads ----
+   query A($x: Int!) { ...F }  query B { ...F }  fragment F on O0 { q(n: $x) }
+   names: 31 A, 32 B, 33 F, 34 x, 35 G *)
+Definition vd_x : vardef := {| vd_name := 34; vd_ty := [73; 110; 116; 33]; vd_default := None |}.
+Definition frag_F : name * fragment :=
+  (33, {| fr_cond := 12; fr_dirs := []; fr_sels := [SField None 16 [(17, VVar 34)] [] []] |}).
+Definition named_query (n : name) (vars : list vardef) (sels : list selection) : operation :=
+  {| op_name := Some n; op_ty := OpQuery; op_vars := vars; op_dirs := []; op_sels := sels |}.
+Definition w_shared_undefined : document :=
+  {| doc_ops := [named_query 31 [vd_x] [SSpread 33 []]; named_query 32 [] [SSpread 33 []]];
+     doc_frags := [frag_F] |}.
+Definition w_shared_defined : document :=
+  {| doc_ops := [named_query 31 [vd_x] [SSpread 33 []]; named_query 32 [vd_x] [SSpread 33 []]];
+     doc_frags := [frag_F] |}.
+(* transitively: B { f0 ...G }  G { f0 ...F } *)
+Definition w_shared_transitive : document :=
+  {| doc_ops := [named_query 31 [vd_x] [SSpread 33 []];
+                 named_query 32 [] [SField None 14 [] [] []; SSpread 35 []]];
+     doc_frags := [frag_F; (35, {| fr_cond := 12; fr_dirs := [];
+                                   fr_sels := [SField (Some 19) 14 [] [] []; SSpread 33 []] |})] |}.
+(* B defines $x but reaches no use of it *)
+Definition w_shared_unused : document :=
+  {| doc_ops := [named_query 31 [vd_x] [SSpread 33 []]; named_query 32 [vd_x] [SField None 14 [] [] []]];
+     doc_frags := [frag_F] |}.
+
+(* the specification and the modelled validator reject the shared-fragment
+   documents in no known class, so a real validator that accepts one of them
+   gets verdict 4 (VIOLATION) from the per-case function, and 0 when it rejects *)
+Lemma shared_fragment_verdicts :
+  spec_valid w_schema w_shared_defined 50 = true /\
+  check_c09 w_schema w_shared_defined [] (Some 31) 50 0 = 0 /\
+  forallb (fun d => negb (spec_valid w_schema d 50) &&
+                    (known_class w_schema d [] (Some 31) 50 forwards_input_value_gen =? 0) &&
+                    (check_c09 w_schema d [] (Some 31) 50 0 =? 4) &&
+                    (check_c09 w_schema d [] (Some 32) 50 0 =? 4) &&
+                    (check_c09 w_schema d [] (Some 31) 50 1 =? 0))
+          [w_shared_undefined; w_shared_transitive; w_shared_unused] = true.
+Proof. vm_compute. repeat split. Qed.
